@@ -285,6 +285,31 @@ def rule_b(chk, prog):
                 if st.inplace and any(p.startswith("STATE.thini[") for p in st.paths):
                     chk.violation("C08.b", f"{fi.module}:{fi.qualname}", st.text, "in-place write to the configured initial water content",
                                   loc=fi.loc(st.node))
+    # the snapshot is taken from the *final* initial profile: after `thini = copy(th)` no store to th (rebinding or in place) is
+    # reachable in the same function - otherwise season 0 starts from a profile later seasons are not reset to
+    ir = init_roles(prog)
+    for key in sorted(ir.reached):
+        fi = prog.funcs[key]
+        snaps = [st for st in stores(prog, fi, ir) if st.kind == "attr" and st.field == "thini" and any(p == "STATE.thini" for p in st.paths)]
+        if not snaps:
+            continue
+        from ..rdef import flow_of
+        flow = flow_of(fi)
+        writes = [st for st in stores(prog, fi, ir) if (st.kind == "attr" and st.field == "th" and any(p == "STATE.th" for p in st.paths))
+                  or (st.inplace and any(p.startswith("STATE.th[") for p in st.paths))]
+        for sn in snaps:
+            k = flow.stmt_node.get(id(sn.node))
+            late = []
+            for w in writes:
+                wk = flow.stmt_node.get(id(w.node)) or flow.node_of(w.node)
+                if k is not None and wk is not None and wk != k and flow.cfg.paths_exist_avoiding(k, wk, set()):
+                    late.append(w.text[:60])
+            construct = f"{sn.text[:60]} is the last word on the initial profile"
+            if late:
+                chk.violation("C08.b", f"{fi.module}:{fi.qualname}", construct, f"the water content is still modified after the snapshot ({'; '.join(sorted(set(late)))}): "
+                              "the first season starts from a profile that later seasons are not reset to", loc=fi.loc(sn.node))
+            else:
+                chk.ok("C08.b", f"{fi.module}:{fi.qualname}", construct, f"none of the {len(writes)} stores to th is reachable after it")
     # the two sites that bind th / thini produce fresh arrays
     sites = 0
     for roles in (init_roles(prog), step_roles(prog)):
